@@ -66,6 +66,10 @@ func c12Suite(c Cfg) []Req {
 	if allowed, _ := originPools(c); len(allowed) > 0 {
 		ok = allowed[0]
 	}
+	// origins that other live middlewares are likely to allow: a verdict must not travel between middlewares
+	for _, o := range []string{"https://example.com", "https://sub.example.com", "https://example.com:8443", "http://localhost:8080", "http://example.com", "https://a.example.org.", "http://192.168.1.1:8080", "https://foo.bar.example.net"} {
+		suite = append(suite, Actual("GET", o), Preflight(o, "PUT"))
+	}
 	return append(suite,
 		Actual("GET", evilOrigin), Actual("PUT", evilOrigin), Actual("OPTIONS", evilOrigin),
 		Preflight(evilOrigin, "GET"), Preflight(evilOrigin, "PUT", evilHeader), Preflight(evilOrigin, evilMethod),
